@@ -297,7 +297,7 @@ def _chunk(arg):
 
     logging.getLogger("sqlglot").setLevel(logging.CRITICAL)
     import sqlglot
-    from lib.guard import limits, time_limit
+    from lib.guard import HardTimeout, limits, time_limit
 
     limits()
     out = []
@@ -338,7 +338,7 @@ def _chunk(arg):
                         text_same = tree.sql(dialect=w["dialect"] or None) == base_sql
                     except Exception:
                         text_same = False
-              except TimeoutError:
+              except HardTimeout:
                 continue
               except Exception as e:
                 out.append({"crash": f"{type(e).__name__}: {e}", "meta": {"api": api, "sql": w["sql"]}})
